@@ -610,6 +610,10 @@ func (s *State) evalBuiltin(node *ast.Builtin) object.Object {
 
 func (s *State) evalIndexRangeExpression(left object.Object, leftIdx, rightIdx ast.Node) object.Object {
 	leftIndex := s.Eval(leftIdx)
+	// An error in a bound is that error (a new one at every level of a recursion, each with its stack, is quadratic).
+	if leftIndex.Type() == object.ERROR {
+		return leftIndex
+	}
 	nilRight := (rightIdx == nil)
 	var rightIndex object.Object
 	if nilRight {
@@ -621,6 +625,9 @@ func (s *State) evalIndexRangeExpression(left object.Object, leftIdx, rightIdx a
 		if log.LogDebug() {
 			log.Debugf("eval index %s[%s:%s]", left.Inspect(), leftIndex.Inspect(), rightIndex.Inspect())
 		}
+	}
+	if !nilRight && rightIndex.Type() == object.ERROR {
+		return rightIndex
 	}
 	if !object.IsIntType(leftIndex.Type()) || (!nilRight && !object.IsIntType(rightIndex.Type())) {
 		return s.NewError("range index not integer")
@@ -1239,11 +1246,17 @@ func (s *State) evalForSpecialForms(fe *ast.ForExpression) (object.Object, bool)
 	name := ie.Left.Value().Literal()
 	if ie.Right.Value().Type() == token.COLON {
 		start := unref(s.evalInternal(ie.Right.(*ast.InfixExpression).Left))
+		if start.Type() == object.ERROR {
+			return start, true // as it is (see evalIndexRangeExpression).
+		}
 		startInt, ok := Int64Value(start)
 		if !ok {
 			return s.NewError("for var = n:m n not an integer: " + start.Inspect()), true
 		}
 		end := unref(s.evalInternal(ie.Right.(*ast.InfixExpression).Right))
+		if end.Type() == object.ERROR {
+			return end, true
+		}
 		endInt, ok := Int64Value(end)
 		if !ok {
 			return s.NewError("for var = n:m m not an integer: " + end.Inspect()), true
